@@ -1853,6 +1853,11 @@ class Interp:
             if kind == 'list' and not g.ifs and isinstance(g.target, ast.Name) and isinstance(e.elt, ast.Name) \
                     and e.elt.id == g.target.id:
                 return it.copy()
+            # field projection over a sequence of records kept as columns:  [s.name for s in sections]
+            if kind == 'list' and not g.ifs and isinstance(g.target, ast.Name) and isinstance(e.elt, ast.Attribute) \
+                    and isinstance(e.elt.value, ast.Name) and e.elt.value.id == g.target.id and it.keys and e.elt.attr in it.keys:
+                j = it.keys.index(e.elt.attr)
+                return SymSeq([it.cols[j]])
         ordinal = fr.loop_ordinals[id(e)]
         lspec = self.spec.loops.get((fr.fi.qualname, ordinal))
         if lspec is None and isinstance(it, (SymMap, MapItems)):
